@@ -164,6 +164,7 @@ int main(int argc, char **argv)
 				total += n; free(rb);
 				if (total > declared) apiv |= 4;
 				if (n == 0) break;
+				if (flags & 8) break;        /* reference mode: exactly one (maximal) read call */
 			}
 			if ((flags & 2) && !attached) { lha_decoder_monitor(d, progress_cb, NULL); attached = 1; }
 			crc_rep = lha_decoder_get_crc(d); len_rep = lha_decoder_get_length(d);
